@@ -43,17 +43,26 @@ def render(st, rng):
     lines.append(rng.choice([' ', '\t', '  ']).join(header))
     rows = []
     t0 = 1165665017 + rng.randrange(0, 10 ** 8)
+    free_dates = rng.random() < 0.5
     for r in range(1, st['nrows'] + 1):
         ut = t0 + 60 * r
         tm = time.gmtime(ut)
-        day = tm.tm_mday
-        if date_style == 'A':
-            ds = '%s%s%02d' % (rng.choice(['%d', '%02d']) % day, MONTHS[tm.tm_mon - 1], tm.tm_year % 100)
+        if free_dates:
+            # the DATE column is a date of its own (nothing ties it to UTIM): calendar corners - leap days of 2000, 2004, 1996,
+            # 1972, century and year ends - and any day of 1970..2037 (two-digit years every reading of 'yy' agrees on)
+            y_, m_, d_ = rng.choice([(2000, 2, 29), (2004, 2, 29), (1996, 2, 29), (1972, 2, 29), (1999, 12, 31), (2000, 1, 1), (2000, 2, 28), (2000, 3, 1),
+                                     (2037, 12, 31), (1970, 1, 1)] + [(rng.randint(1970, 2037), rng.randint(1, 12), rng.randint(1, 28)) for _ in range(6)])
+            dt_ = (y_, m_, d_)
         else:
-            ds = '%s-%s-%02d' % (rng.choice(['%d', '%02d']) % day, MONTHS[tm.tm_mon - 1], tm.tm_year % 100)
+            dt_ = (tm.tm_year, tm.tm_mon, tm.tm_mday)
+        day = dt_[2]
+        if date_style == 'A':
+            ds = '%s%s%02d' % (rng.choice(['%d', '%02d']) % day, MONTHS[dt_[1] - 1], dt_[0] % 100)
+        else:
+            ds = '%s-%s-%02d' % (rng.choice(['%d', '%02d']) % day, MONTHS[dt_[1] - 1], dt_[0] % 100)
         ts = '%02d-%02d-%02d' % (tm.tm_hour, tm.tm_min, tm.tm_sec)
         vals = [str(ut), ds, ts]
-        exp = [datetime.datetime(*tm[:6]), datetime.date(tm.tm_year, tm.tm_mon, tm.tm_mday), datetime.time(tm.tm_hour, tm.tm_min, tm.tm_sec)]
+        exp = [datetime.datetime(*tm[:6]), datetime.date(*dt_), datetime.time(tm.tm_hour, tm.tm_min, tm.tm_sec)]
         for name in st['header'][3:]:
             # (a numeric column may well hold the same text as the time stamp column of this file: a channel echoing the clock)
             txt = rng.choice(['0', '8.50', '-1.25', '1e3', '12345.678', '0.000', '7', str(ut), str(t0 + 60)])
